@@ -89,8 +89,8 @@ class RuntimeContract:
             except Exception:
                 cfg = None
         if cfg is not None:
-            env['preds_at'] = lambda p: list(cfg.predicates.get(p or '/', None) or
-                                             (cfg.predicates.default_factory() if hasattr(cfg.predicates, 'default_factory') else []))
+            env['preds_at'] = lambda p: (cfg.predicates.get(p or '/', None) or
+                                         (cfg.predicates.default_factory() if hasattr(cfg.predicates, 'default_factory') else []))
             env['differs_at'] = lambda p: cfg.differs[p]
             env['is_atomic'] = lambda x, p: cfg.is_atomic(x, p)
             env['has_preds'] = lambda p: p in cfg.predicates
@@ -248,7 +248,8 @@ def inputs_for(contract, limit=4000, atoms=ATOMS):
         elif k == 'E':
             pools.append(list(gen_entries(3, atoms)))
         elif k == 'cfg':
-            pools.append([None])
+            from nbdime.diffing.config import DiffConfig
+            pools.append([DiffConfig()])
         elif k == 'path':
             pools.append([''])
         elif k == ('const',):
